@@ -495,7 +495,10 @@ func execNameTestQNameLocalOnly(context *exprContext, expr *grammar.Grammar) err
 			}
 		}
 
-		if ns, ok := child.Node().(node.Namespace); ok {
+		// On the namespace axis a name selects the namespace nodes bound to
+		// the URI that the name is a prefix for.  On every other axis a
+		// namespace node is not of the principal node type.
+		if ns, ok := child.Node().(node.Namespace); ok && context.principal == principalNamespace {
 			namespaceValue := context.NamespaceDecls[queryName]
 
 			if ns.NamespaceValue() == namespaceValue {
